@@ -58,6 +58,18 @@ FixedAtCd(d) ==
     /\ \A j \in DOMAIN d.advances : d.advances[j].amount.e <= d.cd
     /\ (Has(d.rounding) => Val(d.rounding).e <= d.cd)
 
+\* fixed amounts (discounts, charges, advances, rounding) are supplied at the currency's precision; with more decimals the
+\* library rounds them when it presents the document, and an operation that recalculates the presented document
+\* (Invert, ConvertInto) starts from the rounded amounts - outside the input variety the properties name
+AmountsAtCd(d) ==
+    /\ \A j \in DOMAIN d.lines :
+          /\ \A k \in DOMAIN d.lines[j].discounts : d.lines[j].discounts[k].amount.e <= d.cd
+          /\ \A k \in DOMAIN d.lines[j].charges : d.lines[j].charges[k].amount.e <= d.cd
+    /\ \A j \in DOMAIN d.discounts : d.discounts[j].amount.e <= d.cd
+    /\ \A j \in DOMAIN d.charges : d.charges[j].amount.e <= d.cd
+    /\ \A j \in DOMAIN d.advances : d.advances[j].amount.e <= d.cd
+    /\ (Has(d.rounding) => Val(d.rounding).e <= d.cd)
+
 Features(d) == IF \E j \in DOMAIN d.lines : \E k \in DOMAIN d.lines[j].discounts : Has(d.lines[j].discounts[k].base) THEN "explicit-base"
                ELSE IF \E j \in DOMAIN d.lines : \E k \in DOMAIN d.lines[j].charges : Has(d.lines[j].charges[k].base) \/ Has(d.lines[j].charges[k].q) THEN "explicit-base"
                ELSE IF \E j \in DOMAIN d.discounts : Has(d.discounts[j].base) THEN "explicit-base"
@@ -87,11 +99,11 @@ Verdict(ev) ==
                      ELSE IF ev.d.rr = "currency" /\ FixedAtCd(ev.d) /\ ~NoExtraDecimals(ev.d, ev.r) THEN "c03-extra-decimals"
                      ELSE "ok"
       [] ev.k = "invert" ->
-            IF ~InDomainRes(Calculate(ev.d)) THEN "out-of-domain"
+            IF ~InDomainRes(Calculate(ev.d)) \/ ~AmountsAtCd(ev.d) THEN "out-of-domain"
             ELSE IF ~ev.ok2 THEN "invert-refused:" \o Features(ev.d)
             ELSE LET df == Diff(Logged(NegRes(Calculate(ev.d))), ev.r2) IN IF df \in {"ok", "taxes-precise"} THEN "ok" ELSE "invert-" \o df
       [] ev.k = "invert2" ->
-            IF ~InDomainRes(Calculate(ev.d)) THEN "out-of-domain"
+            IF ~InDomainRes(Calculate(ev.d)) \/ ~AmountsAtCd(ev.d) THEN "out-of-domain"
             ELSE IF ~ev.ok2 THEN "invert2-refused"
             ELSE LET df == Diff(Logged(Calculate(ev.d)), ev.r2) IN IF df \in {"ok", "taxes-precise"} THEN "ok" ELSE "invert2-" \o df
       [] ev.k = "permute" ->
